@@ -622,6 +622,37 @@ func (x *c03Ctx) tamperMutants(s *chain.Sim, p chain.BlockPlan) []mutant {
 			*sp = at.Satisfy(s.Tip.InputSigHash(t))
 			return true
 		})
+		// inputs that spend an output created earlier in this block (no accumulator proof binds the claimed parent:
+		// only the comparison with the block's own record does)
+		for k, in := range t.SiacoinInputs {
+			k := k
+			if in.Parent.StateElement.LeafIndex != types.UnassignedLeafIndex {
+				continue
+			}
+			add("v2-ephemeral-address-substitute", func(mb *types.Block) bool {
+				// claim the attacker's address for the parent and satisfy the attacker's policy with the attacker's key
+				at := c03Attacker(s, rng)
+				txn(mb).SiacoinInputs[k].Parent.SiacoinOutput.Address = at.Addr
+				return s.ResignV2(txn(mb))
+			})
+			add("v2-ephemeral-value", func(mb *types.Block) bool {
+				// claim one hasting more than was created and give it to the miner; everything is re-signed
+				c := txn(mb)
+				c.SiacoinInputs[k].Parent.SiacoinOutput.Value = c.SiacoinInputs[k].Parent.SiacoinOutput.Value.Add(types.NewCurrency64(1))
+				c.MinerFee = c.MinerFee.Add(types.NewCurrency64(1))
+				return s.ResignV2(c)
+			})
+			add("v2-ephemeral-maturity", func(mb *types.Block) bool {
+				c := txn(mb)
+				c.SiacoinInputs[k].Parent.MaturityHeight = 1 + uint64(rng.Intn(int(child)))
+				return c.SiacoinInputs[k].Parent.MaturityHeight != in.Parent.MaturityHeight
+			})
+			add("v2-ephemeral-id", func(mb *types.Block) bool {
+				c := txn(mb)
+				c.SiacoinInputs[k].Parent.ID[rng.Intn(32)] ^= 1 << uint(rng.Intn(8))
+				return s.ResignV2(c)
+			})
+		}
 		// a Foundation address change in a properly signed transaction that spends nothing of the management address
 		if t.NewFoundationAddress == nil && len(t.SiacoinInputs) > 0 {
 			mgmt := false
@@ -639,6 +670,92 @@ func (x *c03Ctx) tamperMutants(s *chain.Sim, p chain.BlockPlan) []mutant {
 		}
 	}
 	return out
+}
+
+// c03SameBlockSpends builds blocks [txn1 pays to A ; txn2 spends txn1's output 0] directly: the honest one
+// (control, must be accepted) and the ones in which txn2 claims another address / value / maturity for the
+// parent — with the policy of the CLAIMED address validly satisfied by the attacker's own key — and, for
+// v1, reveals the attacker's unlock conditions for the output created by txn1.
+func c03SameBlockSpends(s *chain.Sim, rng *rand.Rand, ts time.Time, miner types.Address) (control []mutant, attacks []mutant) {
+	var ids []types.SiacoinOutputID
+	for id := range s.St.SC {
+		ids = append(ids, id)
+	}
+	sort.Slice(ids, func(i, j int) bool { return bytes.Compare(ids[i][:], ids[j][:]) < 0 })
+	child := s.ChildHeight()
+	pick := func(v2 bool) (types.SiacoinElement, bool) {
+		for _, id := range ids {
+			e := s.St.SC[id]
+			r := s.RecipeFor(e.SiacoinOutput.Address)
+			if r == nil || e.MaturityHeight > child || e.SiacoinOutput.Value.Cmp(types.NewCurrency64(10)) < 0 || !s.Spendable(e.SiacoinOutput.Address, v2) || (!v2 && !r.V1Spendable()) {
+				continue
+			}
+			return e, true
+		}
+		return types.SiacoinElement{}, false
+	}
+	if s.V2Allowed() {
+		if e, ok := pick(true); ok {
+			a, b := c03Attacker(s, rng), c03Attacker(s, rng)
+			t1 := types.V2Transaction{SiacoinInputs: []types.V2SiacoinInput{{Parent: e.Copy()}}, SiacoinOutputs: []types.SiacoinOutput{{Value: e.SiacoinOutput.Value, Address: a.Addr}}}
+			if s.ResignV2(&t1) {
+				build := func(kind string, edit func(p *types.SiacoinElement)) (mutant, bool) {
+					parent := types.SiacoinElement{ID: t1.SiacoinOutputID(t1.ID(), 0), StateElement: types.StateElement{LeafIndex: types.UnassignedLeafIndex}, SiacoinOutput: t1.SiacoinOutputs[0]}
+					edit(&parent)
+					t2 := types.V2Transaction{SiacoinInputs: []types.V2SiacoinInput{{Parent: parent}}, SiacoinOutputs: []types.SiacoinOutput{{Value: parent.SiacoinOutput.Value, Address: b.Addr}}}
+					if !s.ResignV2(&t2) { // signs with the key of the CLAIMED address
+						return mutant{}, false
+					}
+					blk := types.Block{Timestamp: ts, V2: &types.V2BlockData{Transactions: []types.V2Transaction{t1.DeepCopy(), t2}}}
+					s.Seal(&blk, miner)
+					return mutant{kind, blk, consensus.V1BlockSupplement{}}, true
+				}
+				if m, ok := build("v2-same-block-spend-honest", func(p *types.SiacoinElement) {}); ok {
+					control = append(control, m)
+				}
+				if m, ok := build("v2-ephemeral-address-substitute", func(p *types.SiacoinElement) { p.SiacoinOutput.Address = b.Addr }); ok {
+					attacks = append(attacks, m)
+				}
+				if m, ok := build("v2-ephemeral-value", func(p *types.SiacoinElement) {
+					p.SiacoinOutput.Value = p.SiacoinOutput.Value.Add(types.NewCurrency64(1))
+				}); ok {
+					attacks = append(attacks, m)
+				}
+				if m, ok := build("v2-ephemeral-maturity", func(p *types.SiacoinElement) { p.MaturityHeight = 1 }); ok {
+					attacks = append(attacks, m)
+				}
+			}
+		}
+	}
+	if !s.V1Forbidden() {
+		if e, ok := pick(false); ok {
+			a, b := c03Attacker(s, rng), c03Attacker(s, rng)
+			r := s.RecipeFor(e.SiacoinOutput.Address)
+			t1 := types.Transaction{SiacoinInputs: []types.SiacoinInput{{ParentID: e.ID, UnlockConditions: *r.UC}}, SiacoinOutputs: []types.SiacoinOutput{{Value: e.SiacoinOutput.Value, Address: a.Addr}}}
+			if s.ResignV1(&t1) {
+				build := func(kind string, uc types.UnlockConditions) (mutant, bool) {
+					t2 := types.Transaction{SiacoinInputs: []types.SiacoinInput{{ParentID: t1.SiacoinOutputID(0), UnlockConditions: uc}}, SiacoinOutputs: []types.SiacoinOutput{{Value: e.SiacoinOutput.Value, Address: b.Addr}}}
+					if !s.ResignV1(&t2) {
+						return mutant{}, false
+					}
+					blk := types.Block{Timestamp: ts, Transactions: []types.Transaction{cloneV1(t1), t2}}
+					if s.V2Allowed() {
+						blk.V2 = &types.V2BlockData{}
+					}
+					supp := consensus.V1BlockSupplement{Transactions: []consensus.V1TransactionSupplement{{SiacoinInputs: []types.SiacoinElement{e.Copy()}}, {}}}
+					s.Seal(&blk, miner)
+					return mutant{kind, blk, supp}, true
+				}
+				if m, ok := build("v1-same-block-spend-honest", *a.UC); ok {
+					control = append(control, m)
+				}
+				if m, ok := build("v1-inblock-uc-substitute", *b.UC); ok {
+					attacks = append(attacks, m)
+				}
+			}
+		}
+	}
+	return
 }
 
 // c03InBlockRotation builds a block [key-rotating revision of X ; renewal of X] in which the
@@ -714,7 +831,7 @@ func c03Why(e string) string {
 		e = e[i+len("is invalid: "):]
 	}
 	for _, k := range []string{"superfluous signature", "superfluous preimage", "invalid signature", "invalid preimage", "threshold not reached",
-		"claims incorrect policy", "claims incorrect unlock conditions", "is invalid", "is redundant", "uses an entropy public key", "missing signatures", "nonexistent public key",
+		"claims incorrect value", "claims incorrect maturity height", "nonexistent ephemeral output", "claims incorrect policy", "claims incorrect unlock conditions", "is invalid", "is redundant", "uses an entropy public key", "missing signatures", "nonexistent public key",
 		"unsigned FoundationAddressUpdate", "does not spend an input controlled by current address", "has invalid renter signature",
 		"has invalid host signature", "attestation", "timelock", "references parent not present", "opaque policy"} {
 		if strings.Contains(e, k) {
@@ -792,10 +909,54 @@ func runC03(c *fw.Ctx) {
 				ms = keep
 			}
 			x.rng.Shuffle(len(ms), func(a, b int) { ms[a], ms[b] = ms[b], ms[a] })
-			if len(ms) > perBlock {
-				ms = ms[:perBlock]
+			{ // same-block spends are rare: their mutants are never sampled away
+				var first, rest []mutant
+				for _, m := range ms {
+					if strings.HasPrefix(m.kind, "v2-ephemeral") {
+						first = append(first, m)
+					} else {
+						rest = append(rest, m)
+					}
+				}
+				if len(rest) > perBlock {
+					rest = rest[:perBlock]
+				}
+				ms = append(first, rest...)
 			}
+			// directly built [pay to A ; spend that output] blocks: honest ones must be accepted, the attacks rejected
+			if k%3 == 1 && (!replaying || height == only.Replay.Height) {
+				ctl, att := c03SameBlockSpends(s, x.rng, p.Block.Timestamp, p.Miner)
+				for _, m := range ctl {
+					err := consensus.ValidateBlock(s.Tip, m.block, m.supp)
+					res.Eval(fmt.Sprintf("%s/%d/%d/%s", mode, seed, height, m.kind), true)
+					if err != nil {
+						res.Count("control-rejected:" + m.kind)
+						res.Violate(fw.Violation{Key: "c03-untampered-rejected:" + m.kind, What: "an honest block [pay to A; spend that output with A's key] was rejected: " + err.Error(),
+							Replay: map[string]any{"mode": mode, "seed": seed, "height": height, "tamper": m.kind, "block": fw.Hex(chain.Encode(types.V2Block(m.block)))}, Expected: "accepted", Observed: "rejected"})
+					} else {
+						res.Count("control-accepted:" + m.kind)
+					}
+				}
+				if replaying {
+					var keep []mutant
+					for _, m := range att {
+						if m.kind == only.Replay.Tamper {
+							keep = append(keep, m)
+						}
+					}
+					att = keep
+				}
+				ms = append(att, ms...)
+			}
+			legacyWindow := height < s.Net.HardforkV2.EphemeralOutputHeight
 			for _, m := range ms {
+				if legacyWindow && strings.HasPrefix(m.kind, "v2-ephemeral") {
+					// below EphemeralOutputHeight the claimed ephemeral parent is not compared (documented legacy window): recorded, not judged
+					var err error
+					panicked, _ := fw.Recover(func() { err = consensus.ValidateBlock(s.Tip, m.block, m.supp) })
+					res.Count(fmt.Sprintf("legacy-window:%s:accepted=%v,panicked=%v", m.kind, err == nil && !panicked, panicked))
+					continue
+				}
 				rp := map[string]any{"mode": mode, "seed": seed, "height": height, "tamper": m.kind, "block": fw.Hex(chain.Encode(types.V2Block(p.Block))), "tampered": fw.Hex(chain.Encode(types.V2Block(m.block)))}
 				var err error
 				panicked, msg := fw.Recover(func() { err = consensus.ValidateBlock(s.Tip, m.block, m.supp) })
